@@ -318,33 +318,13 @@ Lemma moving_max_gen {I} (p : Z) (e : expr I R) (env : list (list I)) :
   (1 <= p)%Z -> nonzero_first (Z.to_nat p) (sem e env) ->
   sem (trend_MovingMax_Compute (T:=R) (mk_trend_MovingMax p) e) env
   = tab (Z.to_nat p - 1) (length (sem e env)) (wmax (Z.to_nat p) (sem e env)).
-Proof.
-  intros Hp Hnz. set (xs := sem e env) in *.
-  change (sem (trend_MovingMax_Compute (T:=R) (mk_trend_MovingMax p) e) env)
-    with (skipn (Z.to_nat (p - 1))
-            (s_op2st (stepf (Bst.tmax R 0%R)) Bst.Leaf xs (repeat 0%R (Z.to_nat p) ++ xs))).
-  replace (Z.to_nat (p - 1)) with (Z.to_nat p - 1)%nat by lia.
-  rewrite (run_all xs (Z.to_nat p) ltac:(lia) Hnz (Bst.tmax R 0%R) Rlist_max).
-  - reflexivity.
-  - intros t m Hok Hperm. rewrite <- list_max_Rlist_max.
-    apply (BstProofs.tmax_list_max R 0%R Rleb Rltb Reqb total_order_R); assumption.
-Qed.
+Proof. intros Hp _. exact (moving_max_is_window_max_expr_all p e env Hp). Qed.
 
 Lemma moving_min_gen {I} (p : Z) (e : expr I R) (env : list (list I)) :
   (1 <= p)%Z -> nonzero_first (Z.to_nat p) (sem e env) ->
   sem (trend_MovingMin_Compute (T:=R) (mk_trend_MovingMin p) e) env
   = tab (Z.to_nat p - 1) (length (sem e env)) (wmin (Z.to_nat p) (sem e env)).
-Proof.
-  intros Hp Hnz. set (xs := sem e env) in *.
-  change (sem (trend_MovingMin_Compute (T:=R) (mk_trend_MovingMin p) e) env)
-    with (skipn (Z.to_nat (p - 1))
-            (s_op2st (stepf (Bst.tmin R 0%R)) Bst.Leaf xs (repeat 0%R (Z.to_nat p) ++ xs))).
-  replace (Z.to_nat (p - 1)) with (Z.to_nat p - 1)%nat by lia.
-  rewrite (run_all xs (Z.to_nat p) ltac:(lia) Hnz (Bst.tmin R 0%R) Rlist_min).
-  - reflexivity.
-  - intros t m Hok Hperm. rewrite <- list_min_Rlist_min.
-    apply (BstProofs.tmin_list_min R 0%R Rleb Rltb Reqb total_order_R); assumption.
-Qed.
+Proof. intros Hp _. exact (moving_min_is_window_min_expr_all p e env Hp). Qed.
 
 (* ------------------------------------------------------------------------------------------ *)
 (* 6. volatility.DonchianChannel
